@@ -180,6 +180,40 @@ Definition run_proccase (ts : list (list key)) (scripts : list script) (nleaf : 
          o_stats := []; o_rounds := 0; o_hung := true |}
   end.
 
+(* adaptive requesters (round 5, second pass; C12/AdaptModel.v): a row entry (k, alt) asks for module k when the task's previous
+   lookup got symbols (or there was none), for module alt otherwise.  [unfold_rows] are the fixed lists of
+   c12_adaptive_refines (every mode runs its model on them); [run_acase] runs the adaptive model itself (mode 0). *)
+From RM Require Import C12.AdaptModel.
+Definition strat_of (row : list (nat * nat)) : strat :=
+  fun acc => match nth_error row (length acc) with
+             | None => None
+             | Some (k, alt) => Some (match last (map snd acc) OOk with OOk => k | _ => alt end)
+             end.
+Definition aconfig_of (rows : list (list (nat * nat))) (scripts : list script) : aconfig :=
+  {| astrats := map strat_of rows; abase := mk_config [] scripts |}.
+Definition maxlen (rows : list (list (nat * nat))) : nat := fold_right (fun r n => Nat.max (length r) n) 0 rows.
+Definition unfold_rows (rows : list (list (nat * nat))) (scripts : list script) : list (list key) :=
+  tasks (fixed_config (maxlen rows) (aconfig_of rows scripts)).
+Fixpoint adrain (ac : aconfig) (fuel n : nat) (s : astate) (rounds : nat) : astate * nat :=
+  if aall_done ac s then (s, rounds)
+  else match n with
+       | O => (s, rounds)
+       | S m => adrain ac fuel m (fold_left (fun s t => apoll fuel ac t s) (seq 0 (length (astrats ac))) s) (S rounds)
+       end.
+Definition run_acase (rows : list (list (nat * nat))) (scripts : list script) (nleaf : nat) (sched : list task) : c12_out :=
+  let ac := aconfig_of rows scripts in
+  let N := maxlen rows in
+  let n := length rows in
+  let s1 := arun (S N) ac sched in
+  let '(s2, rounds) := adrain ac (S N) (S (work (fixed_config N ac))) s1 0 in
+  {| o_mid_req := req (ash s1); o_mid_proc := proc (ash s1);
+     o_mid_done := length (filter (atask_done ac s1) (seq 0 n));
+     o_log := calls (ash s2);
+     o_results := map (fun t => results (ash s2) t) (seq 0 n);
+     o_req := req (ash s2); o_proc := proc (ash s2);
+     o_stats := stats_list nleaf (stats (ash s2));
+     o_rounds := rounds; o_hung := negb (aall_done ac s2) |}.
+
 (* glue for the OCaml driver (decimal text <-> nat goes through Coq's Z; see ocaml/zconv.ml) *)
 From Coq Require Import ZArith.
 Definition nat_of_z (x : Z) : nat := Z.to_nat x.
